@@ -18,9 +18,11 @@ BOUNDS = {   # name -> constants
     "seq-s": dict(Mode='"seq"', Seqs="{1, 2, 3}", Sizes="{1, 2}", MaxSlots=2, MaxBytes=4, LiveSizes="{1}", ResetOnEmpty="TRUE"),
     "off-s": dict(Mode='"off"', Seqs="{1, 2, 3}", Sizes="{1, 2}", MaxSlots=3, MaxBytes=4, LiveSizes="{1}", ResetOnEmpty="TRUE"),
     "offn-s": dict(Mode='"off"', Seqs="{1, 2, 3}", Sizes="{1, 2}", MaxSlots=3, MaxBytes=5, LiveSizes="{1}", ResetOnEmpty="FALSE"),
+    "off-q": dict(Mode='"off"', Seqs="{1, 2}", Sizes="{1, 2}", MaxSlots=3, MaxBytes=5, LiveSizes="{1}", ResetOnEmpty="TRUE"),
+    "offn-q": dict(Mode='"off"', Seqs="{1, 2}", Sizes="{1, 2}", MaxSlots=3, MaxBytes=5, LiveSizes="{1}", ResetOnEmpty="FALSE"),
     "seq-m": dict(Mode='"seq"', Seqs="{1, 2, 3, 4}", Sizes="{1, 2}", MaxSlots=2, MaxBytes=5, LiveSizes="{1}", ResetOnEmpty="TRUE"),
     "seq-d": dict(Mode='"seq"', Seqs="{1, 2, 3, 4}", Sizes="{1, 2}", MaxSlots=3, MaxBytes=6, LiveSizes="{1, 2}", ResetOnEmpty="TRUE"),
-    "seq-r": dict(Mode='"seq"', Seqs="{1, 2, 3, 4, 5, 6}", Sizes="{1, 2, 3}", MaxSlots=4, MaxBytes=9, LiveSizes="{1, 2}", ResetOnEmpty="TRUE"),
+    "seq-r": dict(Mode='"seq"', Seqs="{1, 2, 3, 4, 5, 6}", Sizes="{1, 2, 3}", MaxSlots=4, MaxBytes=16, LiveSizes="{1, 2}", ResetOnEmpty="TRUE"),
     "seq-r2": dict(Mode='"seq"', Seqs="{1, 2, 3, 4, 5, 6, 7, 8}", Sizes="{1, 2, 3}", MaxSlots=6, MaxBytes=24, LiveSizes="{1, 2}", ResetOnEmpty="TRUE"),
     "off-r": dict(Mode='"off"', Seqs="{1, 2, 3, 4, 5, 6}", Sizes="{1, 2, 3}", MaxSlots=6, MaxBytes=12, LiveSizes="{1, 2}", ResetOnEmpty="FALSE"),
 }
@@ -114,7 +116,7 @@ def run(ck):
         _validate(ck, sw, name, beh, "random histories, %s, %d steps, %d bytes per token" % (bound, hist, scale), scale)
 
     if quick:
-        jobs = [(cover, ("seq-s",)), (cover, ("off-s",)), (cover, ("offn-s",)),
+        jobs = [(cover, ("seq-s",)), (cover, ("off-q",)), (cover, ("offn-q",)),
                 (sim, (1, "seq-r", 600, 80)), (sim, (2, "seq-r2", 400, 120, 50)), (sim, (3, "off-r", 300, 80))]
     else:
         jobs = [(strict, ("seq-d",)), (cover, ("seq-m",)), (cover, ("off-s",)), (cover, ("offn-s",)),
